@@ -89,13 +89,13 @@ fn main() {
       let t_w = ctx.wall();
       // E1: sequential histories
       let dev = |k: &str, d: u64| std::env::var(k).ok().and_then(|v| v.parse().ok()).unwrap_or(d); // development knobs, unused by vf
-      let e1_cases = dev("IOCX_E1_CASES", tier.pick(24_000u64, 1_500_000u64));
+      let e1_cases = dev("IOCX_E1_CASES", tier.pick(24_000u64, 1_000_000u64));
       let max_chunks = tier.pick(14usize, 30usize);
       let out = vcore::drive(&ctx, &check.findings, 1, e1_cases, move || seq::strategy(max_chunks), |s| seq::execute(s));
       check.absorb("E1", out);
       let t_e1 = ctx.wall();
       // E4: concurrent first resolutions
-      let e4_cases = dev("IOCX_E4_CASES", tier.pick(600u64, 40_000u64));
+      let e4_cases = dev("IOCX_E4_CASES", tier.pick(600u64, 30_000u64));
       let out = vcore::drive(&ctx, &check.findings, 2, e4_cases, conc::strategy, |s| conc::execute(s, 1));
       check.absorb("E4", out);
       let t_e4 = ctx.wall();
@@ -133,7 +133,11 @@ fn main() {
       check.require_class("E1:same_key_other_container_on_path", if q { 100 } else { 5_000 });
       check.require_class("E4:>=2_threads_inside_first_resolution", if q { 200 } else { 10_000 });
       check.require_class("E4:registrations_during_resolution", if q { 200 } else { 10_000 });
-      check.require_class("E4x", 1);
+      // cross-thread cycles: executed = passed + excluded by the open finding
+      let x_done = check.stats.classes.get("E4x").copied().unwrap_or(0) + check.stats.excluded.get("iocx-F2-cross-thread-cycle-deadlocks").copied().unwrap_or(0);
+      if x_done < x_cases / 2 {
+        check.health_failures.push(format!("generator health: only {x_done} of {x_cases} cross-thread cycle cases reached a verdict"));
+      }
       if check.stats.classes.get("isolated_inconclusive").copied().unwrap_or(0) > 0 {
         check.health_failures.push(format!("{} isolated case(s) were inconclusive (child process slow, crashed outside a cycle step, or could not be started)", check.stats.classes["isolated_inconclusive"]));
       }
